@@ -148,10 +148,12 @@ class _NearestNeighborIntegrator(_Integrator):
         self._r = radius
 
         # Get image coordinates of (radius, phi) pixel
-        i = int(radius * math.cos(phi + self._geometry.pa)
-                + self._geometry.x0)
-        j = int(radius * math.sin(phi + self._geometry.pa)
-                + self._geometry.y0)
+        # pixel centers are at integer coordinates: the nearest pixel
+        # is found by rounding, not by truncation
+        i = math.floor(radius * math.cos(phi + self._geometry.pa)
+                       + self._geometry.x0 + 0.5)
+        j = math.floor(radius * math.sin(phi + self._geometry.pa)
+                       + self._geometry.y0 + 0.5)
 
         # ignore data point if outside image boundaries
         if (i in self._i_range) and (j in self._j_range):
